@@ -196,7 +196,7 @@ class CFG:
             'std::option::Option::<T>::as_deref', 'std::option::Option::<T>::unwrap', 'std::result::Result::<T, E>::unwrap',
             'std::option::Option::<T>::expect', 'std::result::Result::<T, E>::expect', 'std::result::Result::<T, E>::as_ref',
             'std::result::Result::<T, E>::as_mut', 'std::pin::Pin::<Ptr>::as_mut', 'std::string::String::as_str',
-            'std::vec::Vec::<T, A>::as_slice', 'std::vec::Vec::<T, A>::as_mut_slice')
+            'std::vec::Vec::<T, A>::as_slice', 'std::vec::Vec::<T, A>::as_mut_slice', 'std::ops::Try::branch')
 
     def origin(self, l, depth=0):
         """the Place a local denotes: references are conflated with their referent, unnamed value
